@@ -199,3 +199,142 @@ Proof.
         (split; [exact Hs2|]; split; [congruence|]; split; congruence).
     + exact H1.
 Qed.
+
+(* ------------------------------------------------------------------ small list facts *)
+
+Lemma firstn_len_app {A} (l x : list A) : firstn (N.to_nat (lenN l)) (l ++ x) = l.
+Proof.
+  unfold lenN. rewrite Nnat.Nat2N.id. induction l as [|a l IH]; cbn; [destruct x; reflexivity|].
+  f_equal. exact IH.
+Qed.
+
+(* ------------------------------------------------------------------ the pass: frame and rollback *)
+
+Section PassLemmas.
+Variable S : Type.
+Variable commit : S -> list N -> cres S.
+
+Definition rt_sorted (r : rt S) : Prop :=
+  sorted hkey_cmp (heads r) /\ sorted N.compare (fronts r) /\ corr_sorted (cor r).
+
+Definition lsorted (st : lstate S) : Prop := rt_sorted (ls_rt st) /\ sorted N.compare (ls_prov st).
+
+(* well-formed world: what registration and every operation maintain *)
+Definition wf (r : rt S) (p : provmap) : Prop := rt_sorted r /\ sorted N.compare p.
+
+Lemma rt_ext (r r' : rt S) :
+  heads r = heads r' -> fronts r = fronts r' -> gtick r = gtick r' -> cor r = cor r' ->
+  faults r = faults r' -> faulted_heads r = faulted_heads r' -> rt_fault r = rt_fault r' ->
+  next_gen r = next_gen r' -> r = r'.
+Proof. destruct r, r'; cbn; intros; subst; reflexivity. Qed.
+
+(* [b] differs from [a] only inside the heads [ks], the frontiers / provenance of their worldlines
+   (provenance only grows), and correlation writes that the rollback log undoes *)
+Record frame (ks : list hkey) (a b : lstate S) : Prop := {
+  fr_heads : forall k, ~ In k ks ->
+    find hkey_cmp k (heads (ls_rt b)) = find hkey_cmp k (heads (ls_rt a));
+  fr_heads_dom : forall k,
+    find hkey_cmp k (heads (ls_rt b)) = None <-> find hkey_cmp k (heads (ls_rt a)) = None;
+  fr_fronts : forall w, ~ In w (map wl_of ks) ->
+    find N.compare w (fronts (ls_rt b)) = find N.compare w (fronts (ls_rt a));
+  fr_fronts_dom : forall w,
+    find N.compare w (fronts (ls_rt b)) = None <-> find N.compare w (fronts (ls_rt a)) = None;
+  fr_prov : forall w, ~ In w (map wl_of ks) ->
+    find N.compare w (ls_prov b) = find N.compare w (ls_prov a);
+  fr_prov_ext : forall w es, find N.compare w (ls_prov a) = Some es ->
+    exists ex, find N.compare w (ls_prov b) = Some (es ++ ex);
+  fr_prov_dom : forall w, find N.compare w (ls_prov a) = None -> find N.compare w (ls_prov b) = None;
+  fr_gtick : gtick (ls_rt b) = gtick (ls_rt a);
+  fr_faults : faults (ls_rt b) = faults (ls_rt a) /\ faulted_heads (ls_rt b) = faulted_heads (ls_rt a) /\
+              rt_fault (ls_rt b) = rt_fault (ls_rt a) /\ next_gen (ls_rt b) = next_gen (ls_rt a);
+  fr_corr : rollback (ls_log b) (cor (ls_rt b)) = rollback (ls_log a) (cor (ls_rt a)) /\
+            witnessed (cor (ls_rt b)) = witnessed (cor (ls_rt a)) /\
+            staged (cor (ls_rt b)) = staged (cor (ls_rt a))
+}.
+
+Lemma frame_refl ks a : frame ks a a.
+Proof.
+  constructor; intros; try tauto; auto.
+  exists []. rewrite app_nil_r. assumption.
+Qed.
+
+Lemma frame_trans ks1 ks2 a b c : frame ks1 a b -> frame ks2 b c -> frame (ks1 ++ ks2) a c.
+Proof.
+  intros F1 F2. constructor.
+  - intros k Hn. rewrite (fr_heads _ _ _ F2), (fr_heads _ _ _ F1); auto; intro; apply Hn, in_or_app; auto.
+  - intros k. rewrite (fr_heads_dom _ _ _ F2). apply (fr_heads_dom _ _ _ F1).
+  - intros w Hn. rewrite map_app in Hn.
+    rewrite (fr_fronts _ _ _ F2), (fr_fronts _ _ _ F1); auto; intro; apply Hn, in_or_app; auto.
+  - intros w. rewrite (fr_fronts_dom _ _ _ F2). apply (fr_fronts_dom _ _ _ F1).
+  - intros w Hn. rewrite map_app in Hn.
+    rewrite (fr_prov _ _ _ F2), (fr_prov _ _ _ F1); auto; intro; apply Hn, in_or_app; auto.
+  - intros w es H. destruct (fr_prov_ext _ _ _ F1 w es H) as [ex1 H1].
+    destruct (fr_prov_ext _ _ _ F2 w _ H1) as [ex2 H2]. exists (ex1 ++ ex2). rewrite app_assoc. exact H2.
+  - intros w H. apply (fr_prov_dom _ _ _ F2), (fr_prov_dom _ _ _ F1), H.
+  - rewrite (fr_gtick _ _ _ F2). apply (fr_gtick _ _ _ F1).
+  - destruct (fr_faults _ _ _ F1) as (A1 & A2 & A3 & A4), (fr_faults _ _ _ F2) as (B1 & B2 & B3 & B4).
+    repeat split; congruence.
+  - destruct (fr_corr _ _ _ F1) as (A1 & A2 & A3), (fr_corr _ _ _ F2) as (B1 & B2 & B3).
+    repeat split; congruence.
+Qed.
+
+(* writing one present key of a map keeps every other key and the domain *)
+Lemma set_other_keys {K V} (cmp : K -> K -> comparison) (L : OrderLaws cmp) (k : K) (v v' : V) m :
+  find cmp k m = Some v ->
+  (forall k', k' <> k -> find cmp k' (set cmp k v' m) = find cmp k' m) /\
+  (forall k', find cmp k' (set cmp k v' m) = None <-> find cmp k' m = None).
+Proof.
+  intros F. split.
+  - intros k' Hne. rewrite (find_set cmp L). destruct (cmp_dec cmp L k' k); congruence.
+  - intros k'. rewrite (find_set cmp L). destruct (cmp_dec cmp L k' k); subst; [|tauto].
+    rewrite F. split; discriminate.
+Qed.
+
+Lemma not_in_single {A} (x y : A) : ~ In x [y] -> x <> y.
+Proof. intros H E. apply H. left. auto. Qed.
+
+(* the generic shape of every state a step can leave behind *)
+Lemma frame_step k (st : lstate S) h h' fo po c' log' :
+  lsorted st ->
+  find hkey_cmp k (heads (ls_rt st)) = Some h ->
+  (forall f', fo = Some f' -> find N.compare (wl_of k) (fronts (ls_rt st)) <> None) ->
+  (forall es', po = Some es' -> exists es ex, find N.compare (wl_of k) (ls_prov st) = Some es /\ es' = es ++ ex) ->
+  corr_sorted c' /\ rollback log' c' = rollback (ls_log st) (cor (ls_rt st)) /\
+    witnessed c' = witnessed (cor (ls_rt st)) /\ staged c' = staged (cor (ls_rt st)) ->
+  let st' := {| ls_rt := upd S (ls_rt st) (set hkey_cmp k h' (heads (ls_rt st)))
+                           (match fo with Some f' => set N.compare (wl_of k) f' (fronts (ls_rt st)) | None => fronts (ls_rt st) end)
+                           c';
+                ls_prov := match po with Some es' => set N.compare (wl_of k) es' (ls_prov st) | None => ls_prov st end;
+                ls_log := log' |} in
+  frame [k] st st' /\ lsorted st'.
+Proof.
+  intros ((Hsh & Hsf & Hsc) & Hsp) Fh Ff Fp (Hc1 & Hc2 & Hc3 & Hc4) st'.
+  destruct (set_other_keys hkey_cmp hkey_order k h h' _ Fh) as [Ho Hd].
+  split.
+  - constructor; unfold st'; cbn [ls_rt ls_prov ls_log upd heads fronts gtick cor faults faulted_heads rt_fault next_gen].
+    + intros k' Hn. apply Ho. apply not_in_single. exact Hn.
+    + exact Hd.
+    + intros w Hn. destruct fo as [f'|]; [|reflexivity].
+      apply find_set_other; [ord|]. cbn in Hn. tauto.
+    + intros w. destruct fo as [f'|]; [|tauto].
+      specialize (Ff f' eq_refl). destruct (find N.compare (wl_of k) (fronts (ls_rt st))) as [f|] eqn:E; [|congruence].
+      apply (set_other_keys N.compare N_order _ _ f' _ E).
+    + intros w Hn. destruct po as [es'|]; [|reflexivity].
+      apply find_set_other; [ord|]. cbn in Hn. tauto.
+    + intros w es Hw. destruct po as [es'|]; [|exists []; rewrite app_nil_r; exact Hw].
+      destruct (Fp es' eq_refl) as (es0 & ex & E & ->).
+      rewrite (find_set N.compare N_order). destruct (cmp_dec N.compare N_order w (wl_of k)) as [->|Hne].
+      * exists ex. congruence.
+      * exists []. rewrite app_nil_r. exact Hw.
+    + intros w Hw. destruct po as [es'|]; [|exact Hw].
+      destruct (Fp es' eq_refl) as (es0 & ex & E & ->).
+      rewrite (find_set N.compare N_order). destruct (cmp_dec N.compare N_order w (wl_of k)) as [->|Hne]; congruence.
+    + reflexivity.
+    + auto.
+    + auto.
+  - unfold st', lsorted, rt_sorted; cbn. repeat split.
+    + apply set_sorted; auto; ord.
+    + destruct fo; auto. apply set_sorted; auto; ord.
+    + exact Hc1.
+    + destruct po; auto. apply set_sorted; auto; ord.
+Qed.
